@@ -38,32 +38,70 @@ fn main() {
     let mut out = io::BufWriter::new(stdout.lock());
     // silence panic messages: a panic is reported on the observation line instead
     std::panic::set_hook(Box::new(|_| {}));
-    for line in stdin.lock().lines() {
-        let line = line.unwrap();
+    // A scenario that does not come back (a deadlocked worker or caller that even teardown cannot join) must not take the
+    // whole run down: every line runs on its own thread under a watchdog; on expiry the line is reported as `HANG` and the
+    // remaining lines are handed to a fresh process (the hung threads and any global controller state stay behind).
+    let limit = std::time::Duration::from_secs(
+        std::env::var("VHARNESS_LINE_TIMEOUT_S").ok().and_then(|v| v.parse().ok()).unwrap_or(120),
+    );
+    let lines: Vec<String> = stdin.lock().lines().map(|l| l.unwrap()).collect();
+    // after three hangs in one run the rest is not attempted any more (each hang costs the whole watchdog)
+    let hangs: u32 = std::env::var("VHARNESS_HANGS").ok().and_then(|v| v.parse().ok()).unwrap_or(0);
+    for (idx, line) in lines.iter().enumerate() {
         let line = line.trim();
         if line.is_empty() || line.starts_with('#') {
             continue;
         }
+        if hangs >= 3 {
+            writeln!(out, "{} => SKIPPED-AFTER-HANGS", line).unwrap();
+            continue;
+        }
         let l2 = line.to_string();
         let f2 = fam.clone();
-        let res = std::panic::catch_unwind(move || match fam_dispatch(&f2, &l2) {
-            Some(r) => r,
-            None => "bad-family".to_string(),
+        let (tx, rx) = std::sync::mpsc::channel();
+        std::thread::spawn(move || {
+            let res = std::panic::catch_unwind(move || match fam_dispatch(&f2, &l2) {
+                Some(r) => r,
+                None => "bad-family".to_string(),
+            });
+            let obs = match res {
+                Ok(s) => s,
+                Err(e) => {
+                    let msg = if let Some(s) = e.downcast_ref::<String>() {
+                        s.clone()
+                    } else if let Some(s) = e.downcast_ref::<&str>() {
+                        s.to_string()
+                    } else {
+                        "?".to_string()
+                    };
+                    format!("PANIC {}", msg.replace('\n', " "))
+                }
+            };
+            let _ = tx.send(obs);
         });
-        let obs = match res {
-            Ok(s) => s,
-            Err(e) => {
-                let msg = if let Some(s) = e.downcast_ref::<String>() {
-                    s.clone()
-                } else if let Some(s) = e.downcast_ref::<&str>() {
-                    s.to_string()
-                } else {
-                    "?".to_string()
-                };
-                format!("PANIC {}", msg.replace('\n', " "))
+        match rx.recv_timeout(limit) {
+            Ok(obs) => writeln!(out, "{} => {}", line, obs).unwrap(),
+            Err(_) => {
+                writeln!(out, "{} => HANG", line).unwrap();
+                out.flush().unwrap();
+                drop(out);
+                let rest: String = lines[idx + 1..].iter().map(|l| format!("{}\n", l)).collect();
+                let exe = std::env::current_exe().expect("current_exe");
+                let mut child = std::process::Command::new(exe)
+                    .arg(&fam)
+                    .env("VHARNESS_HANGS", (hangs + 1).to_string())
+                    .stdin(std::process::Stdio::piped())
+                    .spawn()
+                    .expect("respawn");
+                {
+                    use std::io::Write as _;
+                    let mut cin = child.stdin.take().unwrap();
+                    let _ = cin.write_all(rest.as_bytes());
+                }
+                let st = child.wait().map(|s| s.code().unwrap_or(1)).unwrap_or(1);
+                std::process::exit(st);
             }
-        };
-        writeln!(out, "{} => {}", line, obs).unwrap();
+        }
     }
     out.flush().unwrap();
 }
